@@ -161,11 +161,13 @@ def main():
                 for cls, ev in classify(evs).items():
                     res.append(('Open', cls, dict(ct=len(sealed), tag=ts), ev[0][2]))
             # ciphertext shorter than the tag: error, no assembly call
-            for cl in (0, 1, ts - 1):
-                n0 = len(e.asm_calls)
-                out = e.call_outcome('(*%s.sm4GcmAsm).Open' % SM4, [aead.v, NILSLICE, e.new_slice(list(range(12))), e.new_slice([1] * cl) if cl else NILSLICE, NILSLICE])
-                if out.kind == 'panic' or out.values[1] is None or len(e.asm_calls) != n0:
-                    res.append(('Open', 'short-ciphertext', dict(ct=cl, tag=ts), 'ciphertext shorter than the tag is not refused before touching memory'))
+            for cl in range(0, ts):
+                for dstlen in (None, 16):
+                    n0 = len(e.asm_calls)
+                    dst_ = NILSLICE if dstlen is None else e.new_slice([0] * dstlen)
+                    out = e.call_outcome('(*%s.sm4GcmAsm).Open' % SM4, [aead.v, dst_, e.new_slice(list(range(12))), e.new_slice([1] * cl) if cl else NILSLICE, NILSLICE])
+                    if out.kind == 'panic' or out.values[1] is None or len(e.asm_calls) != n0:
+                        res.append(('Open', 'short-ciphertext', dict(ct=cl, tag=ts, dst=dstlen), 'ciphertext shorter than the tag is not refused before touching memory'))
         return res
     api = eng.explore(run_api)[0]
     ck.absorb(eng)
@@ -220,6 +222,27 @@ def main():
 	sealed := a.Seal(nil, make([]byte, 12), make([]byte, %d), nil)
 	ct := guarded(len(sealed)); copy(ct, sealed)
 	noFault(t, "Open with the ciphertext at the end of a page", func() { if _, err := a.Open(nil, make([]byte, 12), ct, nil); err != nil { t.Fatalf("open failed: %%v", err) } })''' % (keylit, ts, n)
+            return test_src(body)
+        if cls == 'short-ciphertext':
+            # the ciphertext starts at the first byte of a page whose predecessor is PROT_NONE: a read in front of it faults
+            cases = f['cases'][:12]
+            body = '''	b, _ := NewCipher(%s)
+	ps := syscall.Getpagesize()
+	mem, err := syscall.Mmap(-1, 0, 3*ps, syscall.PROT_READ|syscall.PROT_WRITE, syscall.MAP_ANON|syscall.MAP_PRIVATE)
+	if err != nil { t.Skip(err) }
+	if err := syscall.Mprotect(mem[:ps], syscall.PROT_NONE); err != nil { t.Skip(err) }
+	for _, c := range [][3]int{%s} {
+		a, _ := cipher.NewGCMWithTagSize(b, c[1])
+		ct := mem[ps : ps+c[0] : ps+c[0]]
+		var dst []byte
+		if c[2] > 0 { dst = make([]byte, c[2]) }
+		func() {
+			defer func() { if x := recover(); x != nil { if re, ok := x.(runtime.Error); ok && (strings.Contains(re.Error(), "fault") || strings.Contains(re.Error(), "invalid memory address")) { panic(x) }; t.Fatalf("Open(%%d-byte ciphertext, tag %%d) panics instead of returning an error: %%v", c[0], c[1], x) } }()
+			noFault(t, "Open with a ciphertext shorter than the tag", func() {
+				if _, err := a.Open(dst, make([]byte, 12), ct, nil); err == nil { t.Fatalf("Open(%%d-byte ciphertext, tag %%d) succeeds", c[0], c[1]) }
+			})
+		}()
+	}''' % (keylit, ', '.join('{%d, %d, %d}' % (c['ct'], c['tag'], c.get('dst') or 0) for c in cases))
             return test_src(body)
         if cls == 'panic' and r in ('Seal', 'Open'):
             body = '''	b, _ := NewCipher(%s)
